@@ -141,6 +141,12 @@ impl Check for Identity {
     fn components(&self) -> serde_json::Value {
         serde_json::json!({"real": ["identity_verifier::storage::{verify_identity, validate_claim}", "claim_topics_and_issuers::storage", "identity_registry_storage (add_identity, stored_identity)", "identity_claims (add/remove/get)", "claim_issuer helpers: key registry, expiry, revocation, nonce, Ed25519Verifier", "host ed25519_verify"], "stub": ["none (signatures are produced with ed25519-dalek in the harness)"]})
     }
+    fn dup_ok(&self, _s: &Step) -> bool {
+        true
+    }
+    fn reorder_ok(&self) -> bool {
+        true
+    }
     fn probes(&self, _prop: &str) -> std::vec::Vec<&'static str> {
         vec!["probe.rejected", "probe.required_topic_without_issuer", "probe.verified", "probe.verified_with_some_issuer_lacking_claim", "probe.verify_exactly_at_valid_until", "probe.verify_one_before_valid_until"]
     }
